@@ -362,4 +362,11 @@ def rb_binding_agreement(ctx: Ctx) -> None:
     binding_agreement(ctx)
 
 
-RULES = [r1_builtin_maps, r2_mirror_construction, r3_argument_binding, r4_rejection, r5_formula_normal_form, r6_user_bus_is_per_resolver, rb_binding_agreement]
+def rm_no_process_lifetime_results(ctx: Ctx) -> None:
+    """memoising decorators, module-level stores and mutable defaults on this property's mechanism (shared rule, caches.py)"""
+    from ..caches import state_rule
+
+    state_rule(ctx)
+
+
+RULES = [r1_builtin_maps, r2_mirror_construction, r3_argument_binding, r4_rejection, r5_formula_normal_form, r6_user_bus_is_per_resolver, rb_binding_agreement, rm_no_process_lifetime_results]
